@@ -260,7 +260,7 @@ func (e *Engine) SendLocal(pid *PID, msg any, sender *PID) {
 	if proc == nil {
 		// the event stream itself is gone: nobody is left to tell, and reporting
 		// it would only come back here.
-		if e.eventStream != nil && pid.Equals(e.eventStream) {
+		if pid != nil && e.eventStream != nil && pid.Equals(e.eventStream) {
 			return
 		}
 		// broadcast a deadLetter message
